@@ -5,8 +5,8 @@ from common import enc_f, dec_f, close, rng
 import estgen
 
 LEAN_MODULE = 'PGM.Properties.C08'
-LEAN_EXTRA = ['PGM.Properties.C08B', 'PGM.Properties.C04G', 'PGM.Properties.C01G']
-TRANSLATORS = ('py2inf', 'py2gm')   # solvers, belief propagation and mle regenerated and identified with the hand models
+LEAN_EXTRA = ['PGM.Properties.C08B', 'PGM.Properties.C04G', 'PGM.Properties.C01G', 'PGM.Properties.C08E']
+TRANSLATORS = ('py2inf', 'py2gm', 'py2est', 'py2jt', 'py2gminit', 'py2gmq')   # py2est / py2jt / py2gminit / py2gmq: C08E composes the estimator shell, the generated __init__ and project with them; solvers, belief propagation and mle regenerated and identified with the hand models
 TRUSTED = ['Lean 4.33 kernel', 'axioms: propext, Classical.choice, Quot.sound',
            'hand model PGM/Model/Solvers.lean (three solvers as state machines over an arbitrary marginal oracle and loss) and GM.mle tied to src/mbi/inference.py / graphical_model.py by this correspondence run (Float instance)',
            'the 1e-100 offset inside Factor.log (tau): theorems are for tau = 0, the check uses tolerance 1e-6 relative']
